@@ -57,6 +57,9 @@ def Mgr.removeActiveWorkload (m : Mgr) (old : Option Ep) (id : Nat) : Mgr :=
     | none => m
   { m with active := del m.active id }
 
+/-- `pendingWlEpUpdates`: one entry per id, `none` = removal. -/
+abbrev Pending := GoMap Nat (Option Ep)
+
 /-- `wlIdsAscending(&sId, &best)` scan over the shadowed map for the best endpoint waiting on `name`. -/
 def bestShadowed (sh : GoMap Nat Ep) (name : Nat) : Option Nat :=
   sh.foldl (fun best p =>
@@ -81,10 +84,15 @@ def Mgr.activate (m : Mgr) (id : Nat) (old : Option Ep) (w : Ep) : Mgr :=
     chainsOf := set m.chainsOf id w.name,
     routes := if w.up then set m.routes w.name (id, w.data) else del m.routes w.name,
     active := set m.active id w,
-    ifaceToID := set m.ifaceToID w.name id }
+    ifaceToID := set m.ifaceToID w.name id,
+    -- "The endpoint is active now; drop any copy left from when it was shadowed"
+    shadowed := del m.shadowed id }
 
-/-- Body of the loop for one pending entry; returns the new state and the update it queued (if any). -/
-def Mgr.process (m : Mgr) (id : Nat) (w : Option Ep) : Mgr × Option (Nat × Ep) :=
+/-- Body of the loop for one pending entry; `pend` = the OTHER entries still pending (the Go code has
+already done `delete(m.pendingWlEpUpdates, id)` when it scans for a shadowed endpoint to promote, and
+skips shadowed endpoints that have their own update or removal pending).  Returns the new state and the
+update it queued (if any). -/
+def Mgr.process (m : Mgr) (pend : Pending) (id : Nat) (w : Option Ep) : Mgr × Option (Nat × Ep) :=
   let old := get m.active id
   match w with
   | some w =>
@@ -108,7 +116,7 @@ def Mgr.process (m : Mgr) (id : Nat) (w : Option Ep) : Mgr × Option (Nat × Ep)
     let m := { m with shadowed := del m.shadowed id }
     match old with
     | some o =>
-      match bestShadowed m.shadowed o.name with
+      match bestShadowed (m.shadowed.filter (fun p => (get pend p.1).isNone)) o.name with
       | some b =>
         match get m.shadowed b with
         | some e => ({ m with shadowed := del m.shadowed b }, some (b, e))
@@ -119,23 +127,20 @@ def Mgr.process (m : Mgr) (id : Nat) (w : Option Ep) : Mgr × Option (Nat × Ep)
 /-- `resolveWorkloadEndpoints` for one pending update (a promotion queues one more; a promoted
 update is never a removal, so it queues nothing further). -/
 def Mgr.resolve (m : Mgr) (id : Nat) (w : Option Ep) : Mgr :=
-  match m.process id w with
-  | (m', some (b, e)) => (m'.process b (some e)).1
+  match m.process [] id w with
+  | (m', some (b, e)) => (m'.process [] b (some e)).1
   | (m', none) => m'
 
-/-- `pendingWlEpUpdates`: one entry per id, `none` = removal. -/
-abbrev Pending := GoMap Nat (Option Ep)
-
 /-- Every state `resolveWorkloadEndpoints` can end in when SEVERAL updates are pending, whatever order the
-Go map range yields them: at each step any pending entry may be the next one; a promotion does
-`pendingWlEpUpdates[best] = shadowed[best]`, OVERWRITING a pending entry for `best` if there is one. -/
+Go map range yields them: at each step any pending entry may be the next one; a promotion queues
+`pendingWlEpUpdates[best] = shadowed[best]` (`best` never has a pending entry of its own: the scan skips those). -/
 def Mgr.resolveAll : Nat → Mgr → Pending → List Mgr
   | 0, m, _ => [m]
   | _ + 1, m, [] => [m]
   | fuel + 1, m, p :: ps =>
     (p :: ps).flatMap (fun q =>
-      let r := m.process q.1 q.2
       let pend := del (p :: ps) q.1
+      let r := m.process pend q.1 q.2
       let pend := match r.2 with
         | some (b, e) => set pend b (some e)
         | none => pend
